@@ -1,5 +1,5 @@
 """C02 — the score: which strings are compared at which effective block size, on every entry point (not the score value)."""
-from ..rules import effbs, blocksize, convert, typestate, casts, vis, summary, features, beliefs
+from ..rules import effbs, blocksize, convert, typestate, casts, vis, summary, features, beliefs, eqord
 
 EXPL = ("Decides (SA-EFFBS, dimension analysis over MIR): at every scorer call site whose operands are block hashes of hash objects "
         "(FuzzyHashCompareTarget::compare* relation-specific variants, FuzzyHashData::compare via compare_optimized_internal) the two "
@@ -38,6 +38,7 @@ def run(ctx):
             # the `_unchecked` forms of the comparison API are their `_internal` bodies (a re-implemented twin is a second, unchecked implementation)
             ctx.guard("C02", "twins", lambda: features.twins(ctx, prog, scope='internals::compare::|position_array::', floor=8))
         ctx.guard("C02", "distance-exits", lambda: effbs.distance_exits(ctx, prog))
+        ctx.guard("C02", "full-eq", lambda: eqord.full_eq(ctx, prog))
         ctx.guard("C02", "summaries", lambda: summary.check(ctx, prog, 'internals::compare::|compare_easy::', floor=10))
         ctx.guard("C02", "path summaries", lambda: summary.check_paths(ctx, prog, 'internals::compare::|compare_easy::', floor=25))
         if c in ("dbg", "unsafe_dbg", "strict_dbg"):
